@@ -616,6 +616,7 @@ class SymCtx:
                 if isinstance(kk, tuple) and kk and kk[0] == "trig":
                     t2, S2, C2 = val
                     self.add_hyp(z3.Implies(t == t2, z3.And(S == S2, C == C2)))
+                    self.add_hyp(z3.Implies(t == -t2, z3.And(S == -S2, C == C2)))    # parity
             got = (t, S, C)
             self.aux[key] = got
         return got[1] if which == "sin" else got[2]
